@@ -250,6 +250,15 @@ inductive Op where
   | delSig (s : Nat)
   deriving Repr, DecidableEq
 
+/-- the operation on the connection list that a signal operation performs -/
+def Op.toList : Op → Fcppt.C11.Op
+  | .newSig s _ => .newList s
+  | .connect x s _ _ => .newElem x s
+  | .disconnect x => .delElem x
+  | .moveCtor s' s => .listMoveCtor s' s
+  | .moveAssign s s2 => .listMoveAssign s s2
+  | .delSig s => .delList s
+
 def lifetimeOk (st : State) : Op → Bool
   | .newSig s _ => !st.store.live (.head s)
   | .connect x s _ _ => !st.store.live (.elem x) && st.store.live (.head s)
